@@ -18,7 +18,7 @@ BUILD = os.path.join(VERIF, 'build', 'gen', _TAG) if _TAG else os.path.join(VERI
 REPLAYS = os.path.join(VERIF, 'replays', _TAG) if _TAG else os.path.join(VERIF, 'replays')
 EVIDENCE = os.path.join(VERIF, 'build', 'evidence-' + _TAG) if _TAG else os.path.join(VERIF, 'evidence')
 
-TIER_DEFAULTS = {'quick': {'timeout': 75, 'path_timeout': 20}, 'thorough': {'timeout': 600, 'path_timeout': 60}}
+TIER_DEFAULTS = {'quick': {'timeout': 75, 'path_timeout': 20}, 'thorough': {'timeout': 400, 'path_timeout': 60}}
 NCPU = int(os.environ.get('VKIT_JOBS', '0') or 0) or (os.cpu_count() or 4)
 
 
@@ -42,7 +42,7 @@ def run_worker(mod_path, ob, tier, outdir, extra_env):
     t0 = time.time()
     try:
         p = subprocess.run([PY, '-m', 'vkit.worker', mod_path, ob.name, str(to), str(pto), out],
-                           cwd=VERIF, env=e, capture_output=True, text=True, timeout=to * 2 + 120)
+                           cwd=VERIF, env=e, capture_output=True, text=True, timeout=to * 1.5 + 90)
         try:
             with open(out) as f:
                 res = json.load(f)
